@@ -77,6 +77,80 @@ INFO = {
     "C20_smoother_cov_filtered": dict(property="C20", change="the RTS covariance recursion uses the next filtered covariance instead of the next smoothed one",
         needs="sequence length T >= 3 (smoothed covariances at t <= T-3)",
         first_result="caught", strengthening=""),
+    # ---------------- round 2: twenty more sub-agents, told which change site round 1 had used for their property ----------------
+    "R2_C01_fn_merge_nested_check": dict(property="C01", change="Fn.merge drops the condition when it recurses into nested choice dictionaries",
+        needs="a Cond whose branches call another @gen function at the same address (shared address below the top level), condition True",
+        first_result="MISSED by C01 / C03 (every Cond in the corpus had flat shared addresses)",
+        strengthening="GFIPrograms.tla: gT / gF / cg / fcg - branches that call a sub-function at the same nested address"),
+    "R2_C02_generate_handler_score": dict(property="C02", change="Fn's Generate handler uses -score of a constrained sub-call instead of the weight the callee returns",
+        needs="a sub-call (Fn / Scan / Vmap / Cond) constrained on a strict subset of its addresses",
+        first_result="caught", strengthening=""),
+    "R2_C03_scan_update_old_args": dict(property="C03", change="Scan.update builds its result with dataclasses.replace and keeps the OLD recorded arguments",
+        needs="a trace whose own generative function is a Scan, updated with new arguments, then get_args() or an operation with the recorded arguments",
+        first_result="MISSED by C03 / C05 (no top-level Scan program; recorded arguments compared for Fn traces only)",
+        strengthening="GFIOps.tla: ArgsOf for top-level Scan programs; gfireplay compares the recorded arguments of Fn, Cond and Scan traces and runs Trace.update with the recorded arguments next to gf.update; C03 plan c"),
+    "R2_C04_scan_regen_stale_ret": dict(property="C04", change="Scan.regenerate keeps the old final carry / outputs when no step was resampled",
+        needs="a Scan whose carry / outputs depend on its arguments, fed by an earlier choice that is selected while no address inside the Scan is",
+        first_result="MISSED by C04 / C05 (the only Scan step returned its own choice, independent of the carry argument)",
+        strengthening="GFIPrograms.tla: st2 / sc2 / fs2 - a step whose carry and output depend on carry and input, behind a resampled parent choice"),
+    "R2_C05_scan_regen_stale_carry": dict(property="C05", change="Scan.regenerate returns the old trace's final carry",
+        needs="regenerate / mh with a selection reaching a scan step, then a reader of the final carry",
+        first_result="caught (C05, C04, C09)", strengthening=""),
+    "R2_C06_sampler_cache_kw_shapes": dict(property="C06", change="the flat-sampler cache becomes long-lived per (sampler, sample_shape) and keys keyword parameters by name only",
+        needs="the same distribution at two sites with keyword parameters of different shapes",
+        first_result="MISSED by C06 / C14 (sites had no parameters at all); the original patch no longer applies after the repair f931543 of the same cache and was ported by hand (patch_original.diff / patch.diff)",
+        strengthening="seedbuild: v_modes shared_param / shared_kw / wrapped_kw - one long-lived primitive (sample_binder) or the wrap_sampler idiom, scalar and vector parameters by position and by keyword"),
+    "R2_C07_scan_key_not_evolved": dict(property="C07", change="Seed assigns the key coming out of a scan back to the interpreter key",
+        needs="a scan followed by at least two sampling sites (or a cond / another scan)",
+        first_result="MISSED by C07 (programs had at most one site after a scan)",
+        strengthening="Seed.tla: programs <<N(p), S, S>>, <<C, S, S>>, <<N, C>>, <<N, N>>, <<N, N, S>>"),
+    "R2_C08_stale_sample_shape_lane_axis": dict(property="C08", change="the lane-wise sampler captures len(sample_shape) when the batch rule runs instead of when it is called",
+        needs="two nested vectorisations, the inner one mapping a site parameter, the outer one not (repeat around a Vmap)",
+        first_result="caught", strengthening=""),
+    "R2_C09_mala_hmc_drop_kwargs": dict(property="C09", change="the density wrapper of mala / hmc calls assess without the trace's keyword arguments",
+        needs="a trace produced with a keyword argument whose value differs from its default, mala or hmc",
+        first_result="MISSED by C09 (targets took no arguments)",
+        strengthening="c09: the xy target of MCMC.tla also runs through a program with a positional and a keyword argument (non-default value)"),
+    "R2_C10_systematic_grid_off_by_one": dict(property="C10", change="systematic resampling positions start at stratum 1 instead of 0",
+        needs="resample(method='systematic') with non-uniform weights, N >= 2",
+        first_result="caught (C10, C12)", strengthening=""),
+    "R2_C11_nested_cond_pure_kont": dict(property="C11", change="a cond inside a cond branch hands the OUTER pure continuation to its branches",
+        needs="flip_mvd in a branch of a cond nested in a branch of another cond, the outer branch not the identity on the inner result",
+        first_result="the quick tier would have MISSED it (nested conds only in the thorough configuration) - found by inspection, strengthened before the confirmation run",
+        strengthening="ADEVCond_q.cfg: shape CC (cond nested in a branch); the harness always runs nested programs with mvd / rf sites"),
+    "R2_C12_systematic_offset_range": dict(property="C12", change="the systematic offset is drawn from Uniform(0, 1/N) but still divided by N",
+        needs="resample(method='systematic'), N >= 2, looking at the distribution over the offset",
+        first_result="MISSED by C12 (the scripted uniform double ignored the bounds the code asks for)",
+        strengthening="uniform doubles (c12, c10, c09, gfireplay) treat the script as the standard-uniform quantile: lo + (hi - lo) * u"),
+    "R2_C13_multinomial_probs_batch_norm": dict(property="C13", change="multinomial normalises probs= over the whole array instead of the last axis",
+        needs="multinomial with a batched probs= keyword",
+        first_result="MISSED by C13 (batched rows existed for categorical / bernoulli / normal only)",
+        strengthening="Dists.tla: batching law (BatchPairs) - every two rows of one distribution and call convention stacked along a new leading axis must give the two row densities"),
+    "R2_C14_guard_memo_per_primitive": dict(property="C14", change="the seed guard for uninterpreted equations is memoised per primitive",
+        needs="an earlier seeded program using the same higher-order primitive without a site (jax.nn.relu is a custom_jvp call)",
+        first_result="the first check would have MISSED it (no site-free uninterpreted construct ever ran before a placement) - found by inspection, strengthened before the confirmation run",
+        strengthening="c14: before every placement its site-free twin (the same stack of constructs around deterministic code) is run"),
+    "R2_C15_literal_branch_early_return": dict(property="C15", change="a Jaxpr whose single output is a literal returns without calling the continuation",
+        needs="a cond with a branch returning a scalar constant, code after the cond, the constant branch taken; the original patch was ported by hand after ed4ecf9",
+        first_result="MISSED by C15 / C11 (no branch with a literal output)",
+        strengthening="ADEVDet.tla: operation condc (a branch returning a constant) in scalar and vector programs"),
+    "R2_C16_orsel_drop_dead_operand": dict(property="C16", change="OrSel.match returns only the operand whose hit flag is True",
+        needs="a union with the complement of a hierarchical selection",
+        first_result="caught", strengthening=""),
+    "R2_C17_reparam_noise_shape_of_scale": dict(property="C17", change="normal_reparam draws its noise with the shape of the scale alone",
+        needs="normal_reparam with a vector location and a shared scalar scale on a target coupling the coordinates",
+        first_result="the first check would have MISSED it (no family built on normal_reparam) - found by inspection, strengthened before the confirmation run",
+        strengthening="c17: shared-scale normal_reparam family on a coupled 2-d target; the noise double returns values in the shape the code requests and logs it"),
+    "R2_C18_accepts_thin_then_burn": dict(property="C18", change="accept flags are thinned first and burn-in dropped afterwards",
+        needs="burn_in > 0, thinning > 1, burn_in not a multiple of thinning",
+        first_result="caught", strengthening=""),
+    "R2_C19_state_batch_rule_dropped": dict(property="C19", change="the re-inserted state primitive loses its batching rule: a second batching level drops it",
+        needs="a value saved under two vmap levels",
+        first_result="the first check would have MISSED it (no nested vmaps in the grammar) - found by inspection, strengthened before the confirmation run",
+        strengthening="StateInterp.tla: nested vmaps (also around / inside scans and namespaces)"),
+    "R2_C20_smoother_joseph_swapped": dict(property="C20", change="the smoothed covariance is rewritten in a Joseph form with I - A G instead of I - G A",
+        needs="d_state >= 2, A not commuting with the smoother gain, T >= 2",
+        first_result="see checks_on_changed_tree_now", strengthening=""),
 }
 
 
@@ -102,7 +176,7 @@ def main():
             "breaks_property": info["property"],
             "change": info["change"],
             "needs_to_manifest": info["needs"],
-            "produced_by": "independent sub-agent given only the property text and a scratch worktree (see notes.md)",
+            "produced_by": "independent sub-agent given only the property text and a scratch worktree (see notes.md)" + ("; round 2: additionally told which change site round 1 had used" if name.startswith("R2_") else ""),
             "confirmed": {"demo_on_original_exit": int(res[0]) if res else None, "demo_with_change_exit": int(res[1]) if len(res) > 1 else None,
                           "existing_suite_with_change": "passes (sub-agent's run, see notes.md)"},
             "what_was_run": "tools/seeded.sh: private copies of /repo HEAD (orig / orig + patch.diff); demo.py on both; the listed checks (quick tier) with REPO_ROOT = the changed copy",
